@@ -71,7 +71,12 @@ func (e *effects) rootsOf(v ssa.Value, seen map[ssa.Value]bool) []memRoot {
 			}
 		}
 	case *ssa.FreeVar:
-		// captured variable of the enclosing function: shared with the parent and siblings
+		// a local of the enclosing function captured by a closure that is only ever called by that function
+		// (never handed to go / errgroup / stored / returned) is as private as any other local
+		if al, ok := bindingOf(x).(*ssa.Alloc); ok && al.Parent() == x.Parent().Parent() && calledOnlyByCreator(x.Parent()) {
+			return []memRoot{{kind: rkFresh}}
+		}
+		// otherwise a captured variable is shared with the parent and siblings
 		return []memRoot{{kind: rkUnknown, name: "captured variable " + x.Name()}}
 	case *ssa.Global:
 		return []memRoot{{kind: rkGlobal, name: x.Pkg.Pkg.Name() + "." + x.Name()}}
@@ -106,6 +111,24 @@ func (e *effects) rootsOf(v ssa.Value, seen map[ssa.Value]bool) []memRoot {
 			// a pointer/slice loaded from memory: it points into whatever that memory's owner can reach
 			if !pointerLike(x.Type()) {
 				return []memRoot{{kind: rkFresh}}
+			}
+			if fv, ok := x.X.(*ssa.FreeVar); ok {
+				if al, ok := bindingOf(fv).(*ssa.Alloc); ok && al.Parent() == fv.Parent().Parent() && calledOnlyByCreator(fv.Parent()) {
+					// pointer held in a captured local: what the creator stored there (its parameters are not ours)
+					var out []memRoot
+					for _, st := range storesTo(al) {
+						for _, rr := range e.rootsOf(st.Val, seen) {
+							if rr.kind == rkParam {
+								rr = memRoot{kind: rkUnknown, name: "memory reachable from a parameter of the enclosing function (captured " + fv.Name() + ")"}
+							}
+							out = append(out, rr)
+						}
+					}
+					if len(out) == 0 {
+						out = []memRoot{{kind: rkFresh}}
+					}
+					return out
+				}
 			}
 			if al, ok := x.X.(*ssa.Alloc); ok {
 				// local variable: union of what was stored
@@ -645,3 +668,41 @@ func ruleGoroutines(w *World, r *Report, rule string) {
 }
 
 var _ = sort.Strings
+
+// calledOnlyByCreator: every closure value made from f is used only as the callee of plain calls (or defers)
+// in the function that made it.
+func calledOnlyByCreator(f *ssa.Function) bool {
+	p := f.Parent()
+	if p == nil {
+		return false
+	}
+	n := 0
+	ok := true
+	eachInstr(p, func(in ssa.Instruction) {
+		mc, is := in.(*ssa.MakeClosure)
+		if !is || mc.Fn != ssa.Value(f) {
+			return
+		}
+		n++
+		refs := mc.Referrers()
+		if refs == nil {
+			return
+		}
+		for _, r := range *refs {
+			switch x := r.(type) {
+			case *ssa.DebugRef:
+			case *ssa.Call:
+				if x.Call.Value != ssa.Value(mc) {
+					ok = false
+				}
+			case *ssa.Defer:
+				if x.Call.Value != ssa.Value(mc) {
+					ok = false
+				}
+			default:
+				ok = false
+			}
+		}
+	})
+	return ok && n > 0
+}
